@@ -9,6 +9,71 @@ UNITS = ['decl', 'stmt', 'expr', 'eval', 'init', 'type', 'scope', 'attr', 'map',
 OVERRIDES = ['error', 'fatal', 'xmalloc', 'xreallocarray']
 
 
+def _conv(t, v):
+    """C expression converting the IL value v (unsigned long long, class CLS[t]) to the callee's parameter type t"""
+    c = CLS.get(t, 'l')
+    if t.endswith('*'):
+        return '(%s)(uintptr_t)%s' % (t, v)
+    if c == 'w':
+        return '(%s)(unsigned)%s' % (t, v)
+    if c == 'l':
+        return '(%s)%s' % (t, v)
+    return 'il_f32(%s)' % v if c == 's' else 'il_f64(%s)' % v
+
+
+def _bits(t, v):
+    """trace representation of a callee parameter value"""
+    if t.endswith('*'):
+        return None          # addresses differ between the two executions: not recorded (the pointed-to memory is compared at the end)
+    c = CLS[t]
+    if c in 'wl':
+        return '(unsigned long long)(long long)%s' % v if not (t.startswith('unsigned') or t in ('_Bool', 'size_t')) else '(unsigned long long)%s' % v
+    return 'il_b64((double)%s)' % v
+
+
+def callee_code(callees):
+    """callees: list of dicts {name, ret, params:[ctype], extra:[ctype] (variadic arguments expected at the single call site, already promoted),
+    body: optional C statements run by the callee (may use a0..aN)}.  Returns (prelude, dispatch) for ref_inc."""
+    pre, disp = [], []
+    for cid, ce in enumerate(callees, 1):
+        ps, ex = ce['params'], ce.get('extra')
+        names = ['a%d' % i for i in range(len(ps) + len(ex or []))]
+        sig = ', '.join('%s %s' % (t, n) for t, n in zip(ps, names)) or 'void'
+        if ex is not None:
+            sig += ', ...'
+        rec = [b for b in (_bits(t, n) for t, n in zip(ps + (ex or []), names)) if b]
+        rec4 = (rec + ['0', '0', '0', '0'])[:4]
+        ret = ce['ret']
+        body = ''
+        if ex is not None:
+            body += 'va_list ap_; va_start(ap_, a%d); ' % (len(ps) - 1)
+            for t, n in zip(ex, names[len(ps):]):
+                body += '%s %s = va_arg(ap_, %s); ' % (t, n, t)
+            body += 'va_end(ap_); '
+        body += 'unsigned long long rv_ = tv_rec(%d, %d, %s); (void)rv_; ' % (cid, len(rec), ', '.join(rec4))
+        body += ce.get('body', '')
+        if ret != 'void':
+            body += ' return (%s)%s;' % (ret, '(int)rv_' if CLS.get(ret, 'l') in 'sd' else 'rv_')
+        pre.append('%s %s(%s) { %s }' % (ret, ce['name'], sig, body))
+        allp = ps + (ex or [])
+        conds = ['A.n == %d' % len(allp), 'A.vararg_at == %d' % (len(ps) if ex is not None else -1)]
+        conds += ["A.cls[%d] == '%s'" % (i, CLS.get(t, 'l')) for i, t in enumerate(allp)]
+        conds.append("in->class == %s" % ("'%s'" % CLS.get(ret, 'l') if ret != 'void' else '0'))
+        call = '%s(%s)' % (ce['name'], ', '.join(_conv(t, 'A.val[%d]' % i) for i, t in enumerate(allp)))
+        if ret == 'void':
+            r = '%s; return 0;' % call
+        elif CLS.get(ret, 'l') == 's':
+            r = 'return il_b32(%s);' % call
+        elif CLS.get(ret, 'l') == 'd':
+            r = 'return il_b64(%s);' % call
+        else:
+            r = 'return (unsigned long long)%s;' % call
+        disp.append('if (tv_callee_is(in, "%s", (void *)%s)) { struct tv_args A = tv_getargs(); '
+                    'CHECK(%s, "a call passes exactly the callee\'s parameters, each in the class of its (converted or promoted) type"); if (!(%s)) PATH_END(); %s }'
+                    % (ce['name'], ce['name'], ' && '.join(conds), ' && '.join(conds[:2]), r))
+    return '\n'.join(pre) + '\n', ' '.join(disp)
+
+
 def ref_inc(name, src, params, ret, pre='', callees='', prelude=''):
     """params: list of (ctype, name) for scalars or (elemtype + ' *', name, nelem) for pointers to nelem symbolic elements.
     src: full text of the function definition (and of helper definitions it needs); the function NAME is renamed ref_NAME for CBMC."""
@@ -18,6 +83,11 @@ def ref_inc(name, src, params, ret, pre='', callees='', prelude=''):
     body = []
     args_ref, setp, post = [], [], []
     for k, p in enumerate(params):
+        if len(p) == 4:          # (ctype, name, 'FN', harness function): a function pointer argument
+            t, n, _, fn = p
+            args_ref.append(fn)
+            setp.append("il_def(&pv[%d], 'l', (unsigned long long)(uintptr_t)%s);" % (k, fn))
+            continue
         if len(p) == 2:
             t, n = p
             body.append('ND(%s, in_%s);' % (t, n))
@@ -51,7 +121,8 @@ def ref_inc(name, src, params, ret, pre='', callees='', prelude=''):
         L.append('\tASSUME(%s);' % pre)
     L.append('\tstruct value *pv = f->paramtemps; il_allow_redef = true;')
     L += ['\t' + x for x in setp]
-    L.append('\til_run(f->start, 0, 0);')
+    L.append('\t{ ND_ARR(unsigned long long, rv, TV_MAXCALL); for (int q_ = 0; q_ < TV_MAXCALL; q_++) tv_retv[q_] = rv[q_]; }')
+    L.append('\ttv_side = 1; il_run(f->start, 0, 0); tv_side = 0;')
     if ret != 'void':
         L.append('\t%s want = ref_%s(%s);' % (ret, name, ', '.join(args_ref)))
     else:
@@ -70,6 +141,7 @@ def ref_inc(name, src, params, ret, pre='', callees='', prelude=''):
         else:
             L.append("\tCHECK(il_f64(il_val(il_ret, 'd')) == want || (want != want), \"the compiled function returns the value the C abstract machine prescribes\");")
     L += ['\t' + x for x in post]
+    L.append('\tCHECK(tv_nc[0] <= TV_MAXCALL && tv_traces_equal(), "the same calls are made, in the same order, with the same (converted) argument values");')
     L.append('\ttv_done = true;')
     L.append('}')
     return '\n'.join(L) + '\n'
